@@ -28,7 +28,8 @@ def tasks(tier, seed):
 
 def menu(seed, tier):
     R = explore.roles(seed)
-    m = [None, [R['R']], [R['B']], [R['W']], [R['N']], [R['G']], [R['R'], R['B']], [R['R'], R['W']], [], [R['e']], [R['m']]]
+    m = [None, [R['R']], [R['B']], [R['W']], [R['N']], [R['G']], [R['R'], R['B']], [R['R'], R['W']], [], [R['e']], [R['m']],
+         ['raw:;'], ['raw:']]       # non-empty arguments that hold no setting: nothing to remove
     if tier != 'quick':
         m += [[R['X']], [R['T']], [R['R'], R['B'], R['W'], R['N']], [R['o']], [R['q']]]
     return m
@@ -130,6 +131,24 @@ def check_state(h, v, acc, tier):
                         out.append((clause, case, detail))
                 else:
                     acc.validated += 1
+    # AnsiStr twin over the whole bounds grid (a forwarding slip in the wrapper shows only for particular bounds)
+    vs0 = AnsiStr(build(h))
+    # (on every fifth state in the quick tier: the wrapper does not look at the value)
+    for S in ((None, m[1]) if (tier != 'quick' or pre[2] % 5 == 0) else ()):
+        for i in bounds:
+            for j in bounds:
+                acc.transitions += 1
+                case = {'hist': h, 'op': ['remove_str_grid', S, i, j]}
+                try:
+                    w = build(h)
+                    w.remove_formatting(mk_settings(S), i, j)
+                    r = vs0.remove_formatting(mk_settings(S), i, j)
+                    if type(r) is not AnsiStr or model.alpha_codes(r) != model.alpha_codes(w):
+                        out.append(('remove-ansistr', case, 'AnsiStr.remove_formatting(%r,%r,%r) differs from AnsiString' % (S, i, j)))
+                    else:
+                        acc.validated += 1
+                except Exception as ex:  # noqa
+                    out.append(('remove-ansistr', case, 'AnsiStr.remove_formatting(%r,%r,%r): %s: %s' % (S, i, j, type(ex).__name__, ex)))
     # clear_formatting, and the AnsiStr twins
     acc.transitions += 3
     w = build(h)
